@@ -473,6 +473,13 @@ def gen_case(rng):
     ops = []
     for _ in range(rng.randrange(6, 30)):
         u = rng.random()
+        if u > 0.93:
+            pat = same_number_after_change(rng, m)
+            if pat:
+                for op in pat:
+                    m.apply(op)
+                    ops.append(op)
+                continue
         if ops and u < 0.1:
             op = ops[-1]                            # the same call (valid or not) offered twice
         elif u < 0.16:
@@ -485,6 +492,35 @@ def gen_case(rng):
     if any(qj[0] == "repeated" for qj in table) and rng.random() < 0.35:
         case["aliasing"] = rng.choice(["mutate", "buffer"])      # the caller's arrays are re-used / modified after recording
     return case
+
+
+def same_number_after_change(rng, m):
+    """set_covariance(a, b, c) -> a.error changed -> set_covariance with the IDENTICAL number c (either order, either
+    form) -> reads: the same covariance now means another correlation (0.5 / f), possibly out of range or exactly 1"""
+    singles = [i for i in m.good() if m.kind[i] == "single"]
+    if not singles:
+        return None
+    a = rng.choice(singles)
+    others = [i for i in m.good() if i != a]
+    if not others:
+        return None
+    b = rng.choice(others)
+    sa, sb = m.std(a), m.std(b)
+    c = 0.5 * (sa * sb)
+    fs = [2.0, 4.0, 0.25, 0.25] + ([0.5] if sl.exact_product(sa, sb) else [])
+    f = rng.choice(fs)
+    def setc():
+        x, y = (a, b) if rng.random() < 0.5 else (b, a)
+        return ["set_cov", rng.choice(["fn", "meth"]), x, y, ["num", hx(c), "float"]]
+    ops = [setc()]
+    if rng.random() < 0.5:
+        ops.append([rng.choice(["get_corr", "get_cov"]), "fn", a, b])
+    ops.append(["set_err", a, hx(sa * f), "float"])
+    ops.append(setc())
+    if rng.random() < 0.4:
+        ops.append(setc())
+    ops.append(["get_corr", rng.choice(["fn", "meth"]), b, a])
+    return ops
 
 
 def make_twins(rng, table, scales):
@@ -685,7 +721,7 @@ def correspondence(ctx):
     res.rule = ("random call histories (6-29 calls; set_correlation / set_covariance in function and method form, both argument "
                 "orders, explicit / omitted / non-numeric number, the number as Python float / int / bool or numpy float64 / float32 / "
                 "int64 / int32 scalar of either sign and zero, getters, reset_correlations, .error (float / numpy / Fraction / int) and .value writes, reading / printing a quantity, the same "
-                "call offered twice; 30% of the sessions follow an earlier, not reset session whose quantities share values, readings "
+                "call offered twice; the identical covariance requested again after an uncertainty was changed; 30% of the sessions follow an earlier, not reset session whose quantities share values, readings "
                 "and names with those of the case; twins (distinct objects with equal value / uncertainty / readings / name), "
                 "elements of a MeasurementArray; in 35% of the sessions with repeated measurements the caller's reading / uncertainty "
                 "containers are modified in place after recording or one numpy buffer is re-used for several recordings) over 2-5 "
